@@ -41,7 +41,7 @@ func tv(v interface{}) M {
 		}
 		return M{"t": "w", "v": limbs(x)}
 	case int:
-		return tv(int64(x))
+		return M{"t": "x", "v": "int"} // a Go int is not an engine value (the engine's integers are int64)
 	case string:
 		return M{"t": "s", "v": x}
 	case []int64:
